@@ -1,6 +1,7 @@
 package main
 
 import (
+	"github.com/biogo/biogo/seq"
 	"fmt"
 	"math/rand"
 	"strings"
@@ -214,7 +215,13 @@ func alnCheck(r *obs.Run, which string, c alnCase, al alphabet.Alphabet, M [][]i
 	rb, qb := []byte(c.R), []byte(c.Q)
 	ri, qi := alnIdx(al, rb), alnIdx(al, qb)
 	ag := alnAligner(c.Alg, M, c.Open)
-	out := alnRun(ag, alnMkSeq(rb, al, false, r.Rng), alnMkSeq(qb, al, false, r.Rng))
+	// C08 is stated for plain and quality letters alike: half of its runs go through the quality-letter bodies
+	// (C09 runs both and compares them)
+	qual := which == "C08" && r.Rng.Intn(2) == 0
+	out := alnRun(ag, alnMkSeq(rb, al, qual, r.Rng), alnMkSeq(qb, al, qual, r.Rng))
+	if qual {
+		r.Count("quality_letter_runs", 1)
+	}
 	r.Count("alignments_run", 1)
 	r.Count("alg_"+c.Alg, 1)
 	viol := func(class, brief string, extra map[string]interface{}) {
@@ -344,16 +351,40 @@ func alnCheck(r *obs.Run, which string, c alnCase, al alphabet.Alphabet, M [][]i
 				viol("format-panic", fmt.Sprintf("Format panicked: %v", p), nil)
 			}
 		}()
-		rs := alnMkSeq(rb, al, false, r.Rng).(*linear.Seq)
-		qs := alnMkSeq(qb, al, false, r.Rng).(*linear.Seq)
-		fa := align.Format(rs, qs, out.raw, al.Gap())
-		rows := [2]string{string(alphabet.LettersToBytes(fa[0].(alphabet.Letters))), string(alphabet.LettersToBytes(fa[1].(alphabet.Letters)))}
+		// rendered from plain or from quality-carrying sequences, with the alphabet's gap letter or another filler that
+		// occurs in neither sequence
+		gapArg := al.Gap()
+		if k := r.Rng.Intn(4); k > 1 {
+			gapArg = alphabet.Letter([]byte{'.', '~'}[k-2])
+		}
+		quality := r.Rng.Intn(2) == 0
+		rsq, qsq := alnMkSeq(rb, al, quality, r.Rng), alnMkSeq(qb, al, quality, r.Rng)
+		fa := align.Format(rsq.(seq.Sequence), qsq.(seq.Sequence), out.raw, gapArg)
+		var rows [2]string
+		for k := range rows {
+			switch v := fa[k].(type) {
+			case alphabet.Letters:
+				rows[k] = string(alphabet.LettersToBytes(v))
+			case alphabet.QLetters:
+				b := make([]byte, len(v))
+				for x := range v {
+					b[x] = byte(v[x].L)
+				}
+				rows[k] = string(b)
+			default:
+				viol("format", fmt.Sprintf("Format row %d has type %T", k, fa[k]), nil)
+				return
+			}
+		}
+		if quality {
+			r.Count("format_renderings_of_quality_sequences", 1)
+		}
 		r.Count("format_renderings_checked", 1)
 		if len(rows[0]) != len(rows[1]) {
 			viol("format", fmt.Sprintf("Format rows differ in length: %q / %q", rows[0], rows[1]), nil)
 			return
 		}
-		g := string([]byte{byte(al.Gap())})
+		g := string([]byte{byte(gapArg)})
 		if strings.ReplaceAll(rows[0], g, "") != c.R[f.aStart:f.aEnd] || strings.ReplaceAll(rows[1], g, "") != c.Q[f.bStart:f.bEnd] {
 			viol("format", fmt.Sprintf("Format rows %q / %q do not reduce to the aligned subsequences %q / %q", rows[0], rows[1], c.R[f.aStart:f.aEnd], c.Q[f.bStart:f.bEnd]), nil)
 			return
@@ -457,6 +488,20 @@ var alnAlphas = []alnAlpha{
 	{"Protein", alphabet.Protein, "abcdefghiklmnpqrstvwyzACDEFGHIKLMNPQRSTVWY", [][][]int{matrix.BLOSUM62, matrix.PAM250, matrix.BLOSUM45}},
 }
 
+func init() {
+	// every valid letter of each alphabet except the gap letter, both cases (the literals above are the common ones)
+	for k := range alnAlphas {
+		a := alnAlphas[k].a
+		var all []byte
+		for b := 1; b < 128; b++ {
+			if a.IsValid(alphabet.Letter(b)) && alphabet.Letter(b) != a.Gap() {
+				all = append(all, byte(b))
+			}
+		}
+		alnAlphas[k].letters += string(all) // the common ones stay more frequent
+	}
+}
+
 func alnRandomMatrix(rng *rand.Rand, n int) [][]int {
 	m := make([][]int, n)
 	mode := rng.Intn(4)
@@ -495,6 +540,9 @@ func alnRandomMatrix(rng *rand.Rand, n int) [][]int {
 		for j := range m[i] {
 			switch {
 			case i == 0 && j == 0:
+				if rng.Intn(4) == 0 {
+					m[i][j] = -rng.Intn(4) // a gap letter opposite a gap letter (only met when the sequences hold gap letters)
+				}
 			case i == 0 || j == 0:
 				switch mode {
 				case 0:
@@ -569,6 +617,10 @@ func alnRandomCase(r *obs.Run, which string) {
 	}
 	x := gen(ln())
 	var y []byte
+	lopsided := rng.Intn(15) == 0 // one sequence a few letters, the other hundreds: gap runs of 200 and more
+	if lopsided {
+		x = gen(1 + rng.Intn(3))
+	}
 	gapLetters := which == "C08" && rng.Intn(8) == 0 // the gap letter is a letter of a gapped alphabet like any other
 	if rng.Intn(2) == 0 { // related sequences: mutate a window of x
 		a := rng.Intn(len(x))
@@ -590,6 +642,13 @@ func alnRandomCase(r *obs.Run, which string) {
 		}
 	} else {
 		y = gen(ln())
+	}
+	if lopsided {
+		y = gen(205 + rng.Intn(300))
+		if rng.Intn(2) == 0 {
+			x, y = y, x
+		}
+		r.Count("lopsided_pairs", 1)
 	}
 	if gapLetters {
 		for _, sq := range [][]byte{x, y} {
@@ -715,6 +774,14 @@ func alnIllTyped(r *obs.Run) {
 			q := linear.NewSeq("q", alphabet.BytesToLetters(append([]byte(nil), y...)), nil)
 			ref, query = alnMkSeq(x, aa.a, false, rng), q
 			desc = "query without an alphabet"
+			switch rng.Intn(3) {
+			case 1:
+				ref, query = q, alnMkSeq(x, aa.a, false, rng)
+				desc = "reference without an alphabet"
+			case 2:
+				ref, query = q, linear.NewSeq("r", alphabet.BytesToLetters(append([]byte(nil), x...)), nil)
+				desc = "neither sequence has an alphabet"
+			}
 		}
 		for _, a := range alnAlgs {
 			alg = a
@@ -756,7 +823,8 @@ func alnIllTyped(r *obs.Run) {
 			}
 			desc = fmt.Sprintf("non-square matrix (%d rows of %d entries)", len(M), len(M[0]))
 		}
-		ref, query = alnMkSeq(x, aa.a, false, rng), alnMkSeq(y, aa.a, false, rng)
+		qm := rng.Intn(2) == 0 // each aligner validates the matrix once more in its quality-letter body
+		ref, query = alnMkSeq(x, aa.a, qm, rng), alnMkSeq(y, aa.a, qm, rng)
 		r.Count("nonsquare_matrices", 1)
 		for _, a := range alnAlgs { // every aligner validates the matrix itself
 			alg = a
@@ -765,7 +833,8 @@ func alnIllTyped(r *obs.Run) {
 	case 5: // undersized square matrix
 		n := 1 + rng.Intn(aa.a.Len()-1)
 		M = alnRandomMatrix(rng, n)
-		ref, query = alnMkSeq(x, aa.a, false, rng), alnMkSeq(y, aa.a, false, rng)
+		qu := rng.Intn(2) == 0
+		ref, query = alnMkSeq(x, aa.a, qu, rng), alnMkSeq(y, aa.a, qu, rng)
 		desc = fmt.Sprintf("undersized matrix (%dx%d for %d letters)", n, n, aa.a.Len())
 		for _, a := range alnAlgs {
 			alg = a
